@@ -1,45 +1,72 @@
 import Log4rsModel.Base.Str
+import Log4rsModel.Base.Bytes
+import Log4rsModel.Base.Outcome
 /-
 Model of the serde visitors that parse size limits (`trigger/size.rs::deserialize_limit`) and
-time intervals (`trigger/time.rs`, `impl Deserialize for TimeTriggerInterval`).
-A scalar reaches the visitor through `deserialize_any`:
-  * an integer in `0 .. 2^64`   -> `visit_u64`
-  * an integer in `-2^63 .. 0`  -> `visit_i64`
-  * a string                    -> `visit_str`
-  * anything else (float — which includes integers outside both ranges in JSON/YAML —, bool, null,
-    sequences, maps)            -> serde's default `invalid type` error
+time intervals (`trigger/time.rs`, `impl Deserialize for TimeTriggerInterval`), as the code is now.
+A scalar reaches the visitor through `deserialize_any` (directly from serde_json / serde_yaml / toml,
+or as a `serde_value::Value` on the configuration path):
+  * `visit_u64`  : a non-negative JSON / YAML integer below 2^64 (`Value::U64`)
+  * `visit_i64`  : a negative JSON / YAML integer from -2^63, and EVERY TOML integer (`Value::I64`)
+  * `visit_str`  : a string
+  * anything else (float — which includes JSON integers outside both ranges —, 128-bit integers,
+    bool, null, sequences, maps): serde's default `invalid type` error
+Which of the four a document token reaches is the format parser's business (trusted, exercised by
+the harness through all three formats and the `plain` cases); the visitors start here.
+
+Panics are explicit (`Outcome`): the only panic source in the two visitors is the byte slicing
+`v[..n]` / `v[n..]` at the offset returned by `str::find` (`splitAtByte`).
 -/
 namespace Log4rs.Literals
-open Log4rs.Str
+open Log4rs.Str Log4rs
 
-inductive Scalar where
-  | int (n : Int)
+/-- the visitor method a scalar reaches, with its argument -/
+inductive Visit where
+  | u64 (v : Nat) (h : v < 2 ^ 64)
+  | i64 (v : Int) (h : -(2 ^ 63 : Int) ≤ v ∧ v < 2 ^ 63)
   | str (s : List Char)
-  | other            -- float / bool / null / seq / map
-  deriving Repr, DecidableEq
+  | other            -- float / 128-bit integer / bool / null / seq / map
 
 inductive Err where
   | invalidType      -- visitor has no method for this scalar
   | negative         -- "a non-negative number"
   | notNumber        -- "a number"
   | badUnit          -- "a valid unit"
-  | overflow         -- "a byte size" / out of range
+  | overflow         -- "a byte size" / "a number no larger than i64::MAX"
   deriving Repr, DecidableEq
 
 def U64_MAX : Nat := 2 ^ 64 - 1
 def I64_MAX : Nat := 2 ^ 63 - 1
 
-/-- `v.find(|c| !c.is_ascii_digit())` then the two `trim`s: returns the number text and the
-optional unit text. -/
-def splitNumberUnit (v : List Char) : List Char × Option (List Char) :=
-  let num := v.takeWhile isAsciiDigit
-  let rest := v.dropWhile isAsciiDigit
-  match rest with
-  | [] => (trim v, none)
-  | _ => (trim num, some (trim rest))
+/-- `str::find(pred)`: the BYTE offset of the first character satisfying `pred` (`off` = bytes
+already passed) -/
+def findByte (p : Char → Bool) : List Char → Nat → Option Nat
+  | [], _ => none
+  | c :: cs, off => if p c then some off else findByte p cs (off + (utf8Char c).length)
 
-/-- `str::parse::<u64>()` / `parse::<i64>()` restricted to what can reach it here; the general
-rule (optional sign, then digits) is kept so that the model is right for any text. -/
+/-- `(&v[..n], &v[n..])`. `none` = byte offset `n` is inside a character or past the end: Rust
+panics ("byte index n is not a char boundary"). -/
+def splitAtByte : List Char → Nat → Option (List Char × List Char)
+  | v, 0 => some ([], v)
+  | [], _ + 1 => none
+  | c :: cs, n + 1 =>
+    if (utf8Char c).length ≤ n + 1 then
+      (splitAtByte cs (n + 1 - (utf8Char c).length)).map (fun p => (c :: p.1, p.2))
+    else none
+
+/-- `match v.find(|c| !c.is_ascii_digit()) { Some(n) => (v[..n].trim(), Some(v[n..].trim())),
+None => (v.trim(), None) }` -/
+def splitNumberUnit (v : List Char) : Outcome Err (List Char × Option (List Char)) :=
+  match findByte (fun c => !isAsciiDigit c) v 0 with
+  | none => .ok (trim v, none)
+  | some n =>
+    match splitAtByte v n with
+    | some (num, rest) => .ok (trim num, some (trim rest))
+    | none => .panic "byte index is not a char boundary"
+
+/-- `str::parse::<u64>()` / `parse::<i64>()`: optional sign, then ASCII digits, range-checked. Only
+digit strings reach it here (`splitNumberUnit_digits`); the sign rules are kept so that the
+definition is Rust's for any text. -/
 def stripPlus : List Char → List Char
   | '+' :: r => r
   | r => r
@@ -52,48 +79,47 @@ def parseDigits (max : Nat) (body : List Char) : Option Nat :=
 
 def parseUnsigned (max : Nat) (s : List Char) : Option Nat := parseDigits max (stripPlus s)
 
-/-- `parse::<i64>()`; negative results are possible for text like "-5" (unreachable here because
-the number part consists of digits only, kept for fidelity). -/
 def parseSigned (s : List Char) : Option Int :=
   match s with
   | '-' :: r =>
     (parseDigits (I64_MAX + 1) r).map (fun v => -(v : Int))
   | _ => (parseUnsigned I64_MAX s).map Int.ofNat
 
+/-- the `if unit.eq_ignore_ascii_case("b") … else if …` chain of size.rs, in order -/
 def sizeUnitTable : List (List Char × Nat) :=
   [ (['b'], 1),
     (['k','b'], 1024), (['k','i','b'], 1024),
-    (['m','b'], 1024 ^ 2), (['m','i','b'], 1024 ^ 2),
-    (['g','b'], 1024 ^ 3), (['g','i','b'], 1024 ^ 3),
-    (['t','b'], 1024 ^ 4), (['t','i','b'], 1024 ^ 4) ]
+    (['m','b'], 1024 * 1024), (['m','i','b'], 1024 * 1024),
+    (['g','b'], 1024 * 1024 * 1024), (['g','i','b'], 1024 * 1024 * 1024),
+    (['t','b'], 1024 * 1024 * 1024 * 1024), (['t','i','b'], 1024 * 1024 * 1024 * 1024) ]
 
 def lookupUnit {α} (table : List (List Char × α)) (u : List Char) : Option α :=
   match table.find? (fun e => eqIgnoreAsciiCase u e.1) with
   | some e => some e.2
   | none => none
 
-def parseSizeStr (v : List Char) : Except Err Nat :=
-  let (number, unit) := splitNumberUnit v
-  match parseUnsigned U64_MAX number with
-  | none => .error .notNumber
-  | some n =>
-    match unit with
-    | none => .ok n
-    | some u =>
-      match lookupUnit sizeUnitTable u with
-      | none => .error .badUnit
-      | some mult =>
-        -- `checked_mul`
-        if n * mult ≤ U64_MAX then .ok (n * mult) else .error .overflow
+def parseSizeStr (v : List Char) : Outcome Err Nat :=
+  match splitNumberUnit v with
+  | .panic w => .panic w
+  | .err e => .err e
+  | .ok (number, unit) =>
+    match parseUnsigned U64_MAX number with
+    | none => .err .notNumber
+    | some n =>
+      match unit with
+      | none => .ok n
+      | some u =>
+        match lookupUnit sizeUnitTable u with
+        | none => .err .badUnit
+        | some mult =>
+          -- `checked_mul`
+          if n * mult ≤ U64_MAX then .ok (n * mult) else .err .overflow
 
-def parseSize : Scalar → Except Err Nat
-  | .int n =>
-    if 0 ≤ n then
-      if n.toNat ≤ U64_MAX then .ok n.toNat else .error .invalidType
-    else if -(2 ^ 63 : Int) ≤ n then .error .negative
-    else .error .invalidType
+def visitSize : Visit → Outcome Err Nat
+  | .u64 v _ => .ok v
+  | .i64 v _ => if v < 0 then .err .negative else .ok v.toNat     -- `v as u64`, v ≥ 0
   | .str s => parseSizeStr s
-  | .other => .error .invalidType
+  | .other => .err .invalidType
 
 inductive TUnit where
   | second | minute | hour | day | week | month | year
@@ -103,6 +129,7 @@ def TUnit.name : TUnit → String
   | .second => "second" | .minute => "minute" | .hour => "hour" | .day => "day"
   | .week => "week" | .month => "month" | .year => "year"
 
+/-- the `eq_ignore_ascii_case` chain of time.rs, in order -/
 def timeUnitTable : List (List Char × TUnit) :=
   [ (['s','e','c','o','n','d'], .second), (['s','e','c','o','n','d','s'], .second),
     (['m','i','n','u','t','e'], .minute), (['m','i','n','u','t','e','s'], .minute),
@@ -112,34 +139,71 @@ def timeUnitTable : List (List Char × TUnit) :=
     (['m','o','n','t','h'], .month), (['m','o','n','t','h','s'], .month),
     (['y','e','a','r'], .year), (['y','e','a','r','s'], .year) ]
 
-def parseIntervalStr (v : List Char) : Except Err (TUnit × Int) :=
-  let (number, unit) := splitNumberUnit v
-  match parseSigned number with
-  | none => .error .notNumber
-  | some n =>
-    if n < 0 then .error .negative else
-    match unit with
-    | none => .ok (.second, n)
-    | some u =>
-      match lookupUnit timeUnitTable u with
-      | none => .error .badUnit
-      | some tu => .ok (tu, n)
+def parseIntervalStr (v : List Char) : Outcome Err (TUnit × Int) :=
+  match splitNumberUnit v with
+  | .panic w => .panic w
+  | .err e => .err e
+  | .ok (number, unit) =>
+    match parseSigned number with
+    | none => .err .notNumber
+    | some n =>
+      if n < 0 then .err .negative else
+      match unit with
+      | none => .ok (.second, n)
+      | some u =>
+        match lookupUnit timeUnitTable u with
+        | none => .err .badUnit
+        | some tu => .ok (tu, n)
 
-/-- `fixedInt = true` models the code after the `fix:` commit that rejects integer scalars above
-`i64::MAX`; `false` is the original `v as i64` (two's-complement wrap). The driver and the
-theorems use `true`; `false` is kept to state the historical defect (F8). -/
-def parseIntervalWith (fixedInt : Bool) : Scalar → Except Err (TUnit × Int)
-  | .int n =>
-    if 0 ≤ n then
-      if n.toNat ≤ I64_MAX then .ok (.second, n)
-      else if n.toNat ≤ U64_MAX then
-        if fixedInt then .error .overflow else .ok (.second, n - 2 ^ 64)
-      else .error .invalidType
-    else if -(2 ^ 63 : Int) ≤ n then .error .negative
-    else .error .invalidType
+/-- The count of an accepted interval is the `i64` payload of the `TimeTriggerInterval` variant.
+`visit_u64` rejects values above `i64::MAX` (the `fix:` commit a913ecb; before it `v as i64` wrapped). -/
+def visitInterval : Visit → Outcome Err (TUnit × Int)
+  | .u64 v _ => if v ≤ I64_MAX then .ok (.second, (v : Int)) else .err .overflow
+  | .i64 v _ => if v < 0 then .err .negative else .ok (.second, v)
   | .str s => parseIntervalStr s
-  | .other => .error .invalidType
+  | .other => .err .invalidType
 
-def parseInterval : Scalar → Except Err (TUnit × Int) := parseIntervalWith true
+/-- forget why something was not accepted (`none` = an error or a panic) -/
+def toOpt {ε α} : Outcome ε α → Option α
+  | .ok a => some a
+  | _ => none
+
+/-! ### Document scalars
+
+`Scalar` is a scalar of a configuration document (the vocabulary shared with the configuration
+model of C14): an integer token of any size, a string, or anything else. `Scalar.visit` is the route
+of JSON and YAML (and of `serde_value::Value::U64` / `I64`), `Scalar.visitToml` the route of TOML,
+which has only `i64` integers and hands every one of them to `visit_i64`. -/
+
+inductive Scalar where
+  | int (n : Int)
+  | str (s : List Char)
+  | other            -- float / bool / null / seq / map
+  deriving Repr, DecidableEq
+
+def Scalar.visit : Scalar → Visit
+  | .int n =>
+    if h : 0 ≤ n ∧ n.toNat < 2 ^ 64 then .u64 n.toNat h.2
+    else if h2 : -(2 ^ 63 : Int) ≤ n ∧ n < 2 ^ 63 then .i64 n h2
+    else .other        -- f64 / u128 / i128: no visitor method
+  | .str s => .str s
+  | .other => .other
+
+def Scalar.visitToml : Scalar → Option Visit
+  | .int n => if h2 : -(2 ^ 63 : Int) ≤ n ∧ n < 2 ^ 63 then some (.i64 n h2) else none
+  | .str s => some (.str s)
+  | .other => some .other
+
+/-- `Result` view of an outcome for the callers that have no panic constructor (the configuration
+model of C14). The visitors never panic (`C20_size_no_panic`, `C20_interval_no_panic`), so the last
+line is unreachable; it is not used by any C20 theorem. -/
+def toExcept {α} : Outcome Err α → Except Err α
+  | .ok a => .ok a
+  | .err e => .error e
+  | .panic _ => .error .invalidType
+
+def parseSize (sc : Scalar) : Except Err Nat := toExcept (visitSize sc.visit)
+
+def parseInterval (sc : Scalar) : Except Err (TUnit × Int) := toExcept (visitInterval sc.visit)
 
 end Log4rs.Literals
